@@ -27,10 +27,22 @@ R6  totality            on these valid grids the kernel neither raises nor gathe
                         array of another index space (sizes of the node/face/cell/half-face/edge spaces are pairwise
                         distinct on the instances, so a mis-keyed gather or bincount is a shape contradiction)
 
+R7  decisions / scale   every data-dependent decision taken on the way (comparison, tolerance test, isclose, argmax key, sign pulled
+                        out of a square root) is logged with its deciding term while the kernel is evaluated on s * X with a
+                        symbolic s > 0; a term that is not homogeneous in s compares quantities of different physical dimension:
+                        a decade s* (1e-9 .. 1e9) at which it falls the other way is searched and R1-R6 are decided on the
+                        instance scaled by s* and by the next decade; only a failure THERE is a finding (documented absolute
+                        tolerances that never flip an outcome on a valid instance stay notes)
+R8  constructor         CartGrid.__init__ is interpreted, for every documented form of (nx, physdims) and symbolic box limits, up to
+                        its call of the TensorGrid constructor: the k-th coordinate array has nx[k] + 1 equidistant entries from
+                        the requested minimum to the requested maximum
+
 Not decided: other connectivities than the instances (the formulas are taken to be connectivity-generic), values on
-any concrete grid, positivity of volumes for all valid grids, the behaviour of the tolerance branches (only the arm
-taken on non-degenerate placements is followed), non-convex cells in the fall-back, non-planar faces, round-off,
-the 0-d kernel (constants), the grid constructors (structured.py / simplex.py).
+any concrete grid, positivity of volumes for all valid grids, the behaviour of the tolerance branches beyond R7 (only
+the arm taken on the placements and on the scaled instances is followed), non-convex cells in the fall-back,
+non-planar faces, round-off, the 0-d kernel (constants); of the constructors only the node coordinates that CartGrid
+hands to TensorGrid: TensorGrid's own node/face/cell numbering (structured.py) and the simplex constructors
+(simplex.py: Delaunay, connectivity from cell lists) are not examined.
 """
 from __future__ import annotations
 
@@ -53,7 +65,8 @@ MATOP = "src/porepy/numerics/linalg/matrix_operations.py"
 
 META = {
     "explanation": __doc__,
-    "rule_text": "one obligation per (instance, cell | face | half-face) identity; R6 one per instance",
+    "rule_text": "one obligation per (instance, cell | face | half-face) identity; R6, R7 one per instance; R8 one per (form of the constructor "
+                 "arguments, axis)",
     "trusted_base": ["python ast", "sa.core", "sympy expand/together/sqf_list as term normaliser",
                      "the small numpy/scipy.sparse evaluator of this module (object arrays of sympy terms; csc/csr/coo storage "
                      "order modelled; sparse products drop exact zeros as scipy does)",
@@ -69,7 +82,7 @@ META = {
     "technique": "abstract interpretation of the array kernels to closed-form terms on small symbolic grids (sympy as term "
                  "normaliser, norm symbols for square roots); identities of the property decided as polynomial identities",
 }
-MIN_INSTANCES = {"R1": 12, "R2": 66, "R3": 39, "R4": 32, "R5": 12, "R6": 5}
+MIN_INSTANCES = {"R1": 12, "R2": 66, "R3": 39, "R4": 32, "R5": 12, "R6": 5, "R7": 5, "R8": 21}
 
 
 # ======================================================================================================
@@ -3460,4 +3473,12 @@ MUTANTS = [
     _m("2d-subsimplex-area-factor", "subsimplex_normals = 0.5 * np.cross(", "subsimplex_normals = np.cross(", "R4", control=True),
     _m("3d-subnormal-scale", "            )\n            / 2\n        )", "            )\n            / 3\n        )", "R2"),
     _m("1d-centre-not-midpoint", "self.cell_centers = 0.5 * (xf1 + xf2)", "self.cell_centers = 0.5 * (xf1 + xf1)", "R5"),
+    # --- independently seeded changes (campaign of the coordinator)
+    _m("seed-1d-flip-probe-absolute-step", "vn = v + nrm(v) * self.face_normals[:, fi[idx]] * 0.001", "vn = v + self.face_normals[:, fi[idx]] * 0.001", "R7"),
+    _m("seed-2d-fallback-flip-without-cell-faces-sign", "                    cf_orient\n                    * np.sum(subsimplex_heights * self.face_normals[:, faceno], axis=0)",
+       "                    np.sum(subsimplex_heights * self.face_normals[:, faceno], axis=0)", "R3"),
+    _m("seed-cartgrid-z-extent-from-ymin", '                    physdims.get("zmax", 0) - zmin,', '                    physdims.get("zmax", 0) - ymin,', "R8", file=STRUCT),
+    _m("cartgrid-2d-xmin-dropped", "            nodes_x = xmin + np.linspace(0, physdims[0], nx[0] + 1)\n            nodes_y = ymin + np.linspace(0, physdims[1], nx[1] + 1)\n            super().__init__(nodes_x, nodes_y, name=name)",
+       "            nodes_x = np.linspace(0, physdims[0], nx[0] + 1)\n            nodes_y = ymin + np.linspace(0, physdims[1], nx[1] + 1)\n            super().__init__(nodes_x, nodes_y, name=name)", "R8", file=STRUCT),
+    _m("3d-volume-tolerance-relative-to-nothing", "if not np.all(tet_volumes > -1e-12):", "if not np.all(tet_volumes > 1e-12):", "R7"),
 ]
